@@ -557,11 +557,11 @@ class Runner(Exec):
             elif mode[0] == "opaque":
                 self.assign_target(body_st, s.target, SV("str", ctx.fresh("opaque_item")), s)
             elif mode[0] == "enum":
-                self.assign_target(body_st, s.target, mk_tuple([mk_int(k), self.load_elem(body_st, mode[1], k, s)]), s)
+                self.assign_target(body_st, s.target, mk_tuple([mk_int(k), self.load_elem(body_st, mode[1], k, s, in_range=True)]), s)
             elif mode[0] == "zip":
-                self.assign_target(body_st, s.target, mk_tuple([self.load_elem(body_st, mode[1], k, s), self.load_elem(body_st, mode[2], k, s)]), s)
+                self.assign_target(body_st, s.target, mk_tuple([self.load_elem(body_st, mode[1], k, s, in_range=True), self.load_elem(body_st, mode[2], k, s, in_range=True)]), s)
             else:
-                self.assign_target(body_st, s.target, self.load_elem(body_st, mode[1], k, s), s)
+                self.assign_target(body_st, s.target, self.load_elem(body_st, mode[1], k, s, in_range=True), s)
             body_st.env[hidden] = mk_int(k + step)
             # ghost name `_k`: index of the current element at body_start, of the next one at body_end (as in the invariants)
             body_st.env["_k"] = mk_int(k)
@@ -571,7 +571,12 @@ class Runner(Exec):
         if contract is not None and ordn in getattr(contract, "split_loops", []):
             ends = self.run_block_split(body_st, body) + ctl.continues
         else:
-            self.run_block(body_st, body)
+            for bi, bstmt in enumerate(body):
+                if body_st.dead:
+                    break
+                self.run_block(body_st, [bstmt])
+                # ghost statements between the statements of a loop body: "loopN.after_stmtK" (K counts from 1)
+                self.run_ghost(body_st, "%s.after_stmt%d" % (tag, bi + 1))
             ends = [body_st] + ctl.continues
         fr.loops.pop()
         for e in ends:
